@@ -4,7 +4,7 @@
    small_align A is rustc's bound on alignments (2^29), needed only so that a misaligned input
    exists in the address space. *)
 From Coq Require Import NArith List Bool String.
-From BM Require Import Base.Outcome Base.Prims Base.Layout Spec.CastSpec.
+From BM Require Import Base.Outcome Base.Prims Base.Layout Spec.CastSpec Spec.MustSpec.
 From BM Require Import Proofs.CastValue Proofs.CastMust.
 From BM.Gen Require Internal Root Must.
 Open Scope N_scope.
